@@ -28,15 +28,7 @@ def run(tier, seed, only=None):
     t0 = time.time()
     d = C.scratch("c14")
     verdicts = C.Verdicts(PROP)
-    mc = []
-    states = transitions = 0
-    for cfg, must in (("MC_Pipeline_intended", True), ("MC_Pipeline_asbuilt", False), ("MC_Pipeline_asbuilt_probe", False)):
-        r = C.run_tlc("MC_Pipeline", cfg, workers=8, timeout=3000, heap="16g")
-        states += r.distinct
-        transitions += r.generated
-        if must and not r.ok:
-            raise C.ToolError("intended design violates the contract: %s" % r.error)
-        mc.append({"config": cfg, "holds": r.ok, "violated": r.error, "distinct_states": r.distinct})
+    mc, states, transitions = P.model_check()
     cases = []
     if only is not None:
         cases = only
